@@ -1,5 +1,5 @@
 (* C11 — proofs about the licensing side (Model/SbomLic.v, Spec/SbomLicSpec.v). *)
-From Apko Require Import Base.Prelude Model.Sbom Model.SbomLic Spec.SbomSpec Spec.SbomLicSpec Proofs.SbomProofs.
+From Apko Require Import Base.Prelude Model.Sbom Model.SbomLic Spec.SbomSpec Spec.SbomLicSpec Proofs.SbomProofs Proofs.SbomNumbered.
 Open Scope string_scope. Open Scope list_scope.
 
 (* ---- booleans ---------------------------------------------------------------- *)
@@ -255,7 +255,7 @@ Qed.
 
 Lemma generate_full_fuel perm g lfs : generate_full perm g lfs <> OutOfFuel.
 Proof.
-  unfold generate_full. pose proof (generate_fuel perm g) as F. destruct (generate perm g); try discriminate; [|contradiction].
+  unfold generate_full. pose proof (gen_fuel perm g) as F. destruct (generate perm g); try discriminate; [|contradiction].
   destruct (process_lics (g_fs g) lfs (g_apks g) []); discriminate.
 Qed.
 
